@@ -140,7 +140,12 @@ def strict_equal(a, b):
   # pylint: disable=unidiomatic-typecheck
   # Try/catch needed because some comparisons may fail (e.g. datetimes with different tzinfo)
   try:
-    return type(a) == type(b) and a == b
+    if type(a) != type(b):
+      return False
+    if type(a) in (list, tuple):
+      # Lists compare equal when their elements do, and for elements 1 == 1.0 == True.
+      return len(a) == len(b) and all(strict_equal(x, y) for (x, y) in zip(a, b))
+    return a == b
   except Exception:
     return False
 
